@@ -7,7 +7,7 @@ from importlib.resources import as_file, files
 from pathlib import Path
 from typing import Any
 
-from pydantic import ConfigDict, Field, model_validator
+from pydantic import ConfigDict, model_validator
 
 from AEIC.utils.models import CIBaseModel
 
@@ -34,12 +34,12 @@ class Config(CIBaseModel):
     model_config = ConfigDict(frozen=True)
     """Configuration is frozen after creation."""
 
-    path: list[Path] = Field(default_factory=list)
+    path: tuple[Path, ...] = ()
     """List of paths to search for data files. If not initialized explicitly,
     this is taken from the AEIC_PATH environment variable if set, or defaults
     to the current working directory only."""
 
-    data_path_overrides: list[Path] = Field(default_factory=list)
+    data_path_overrides: tuple[Path, ...] = ()
     """List of paths used for overriding the normal data directory search. Used
     for testing."""
 
@@ -202,7 +202,9 @@ class Config(CIBaseModel):
     def _normalize_path(self) -> None:
         # Path was explicitly set when constructing the instance.
         if len(self.path) > 0:
-            object.__setattr__(self, 'path', [Path(p).resolve() for p in self.path])
+            object.__setattr__(
+                self, 'path', tuple(Path(p).resolve() for p in self.path)
+            )
             return
 
         # Otherwise initialize from the AEIC_PATH environment variable.
@@ -210,12 +212,14 @@ class Config(CIBaseModel):
         if path_env != '':
             # Path from AEIC_PATH environment variable.
             object.__setattr__(
-                self, 'path', [Path(p).resolve() for p in path_env.split(os.pathsep)]
+                self,
+                'path',
+                tuple(Path(p).resolve() for p in path_env.split(os.pathsep)),
             )
 
         # Add package data directory as a fallback.
         with as_file(files('AEIC') / 'data') as data_dir:
-            object.__setattr__(self, 'path', self.path + [data_dir.resolve()])
+            object.__setattr__(self, 'path', self.path + (data_dir.resolve(),))
 
 
 def deep_update(base: dict[str, Any], overlay: dict[str, Any]) -> dict[str, Any]:
